@@ -6,12 +6,17 @@ import os
 V = os.path.dirname(os.path.dirname(os.path.abspath(__file__)))
 reg = json.load(open(os.path.join(V, "tools", "registry.json")))
 props = [json.loads(l) for l in open(os.path.join(V, "properties.jsonl"))]
+import glob
+for frag in sorted(glob.glob(os.path.join(V, "tools", "registry.d", "*.json"))):
+    d = json.load(open(frag))
+    reg["checks"].update(d.get("checks", {}))
+    reg["not_applicable"].update(d.get("not_applicable", {}))
 hooks = [l.strip() for l in open(os.path.join(V, "hooks.txt")) if l.strip() and not l.startswith("#")]
 checks = []
 for p in props:
     pid = p["id"]
     c = reg["checks"].get(pid)
-    if not c:
+    if not c or not os.path.exists(os.path.join(V, "tools", "props", pid.lower() + ".py")):
         continue
     script = "tools/props/%s.py" % pid.lower()
     checks.append({
@@ -28,7 +33,7 @@ for p in props:
 na = []
 for p in props:
     pid = p["id"]
-    if pid in reg["checks"]:
+    if pid in [c["property_id"] for c in checks]:
         continue
     na.append({"property_id": pid, "reason": reg["not_applicable"].get(pid, "not claimed yet: no Coq model with a checked tie to the code has been built for this property in the time available (plan in DESIGN.md section 5)")})
 m = {
